@@ -449,7 +449,8 @@ class NumericValue(Value):
             if bit_length != 8 and bit_length != 16:
                 raise ValueTypeError("binary pattern {} must be 8 or 16 bits long".format(data.group("value")))
             self.int = int(data.group("value"), 2)
-            if bit_length == 8 and size_hint is None:
+            if bit_length == 8 and size_hint is None and \
+                    self.explict_addressing_mode != ExplicitAddressingMode.EXPLICIT_EXTENDED:
                 self.size_hint = 2
                 if self.explict_addressing_mode != ExplicitAddressingMode.IMMEDIATE:
                     self.explict_addressing_mode = ExplicitAddressingMode.DIRECT
@@ -460,7 +461,8 @@ class NumericValue(Value):
             if len(data.group("value")) > 4:
                 raise ValueTypeError("hex value length cannot exceed 4 characters")
             self.int = int(data.group("value"), 16)
-            if len(data.group("value")) == 2 and size_hint is None:
+            if len(data.group("value")) == 2 and size_hint is None and \
+                    self.explict_addressing_mode != ExplicitAddressingMode.EXPLICIT_EXTENDED:
                 self.size_hint = 2
                 if self.explict_addressing_mode != ExplicitAddressingMode.IMMEDIATE:
                     self.explict_addressing_mode = ExplicitAddressingMode.DIRECT
